@@ -766,6 +766,10 @@ def run(prog, rep, tier):
     check_eshift(prog, rep)
     if check_cache_discipline(prog, rep) < 2:
         raise AnalysisError('KRYLOV-cache-reset: fewer than 2 Krylov classes fill the cache')
+    rep.rule('KRYLOV-converged-normalised / KRYLOV-default-doc', 'LanczosEvolution: convergence test '
+             'on the normalised result only; documented default of `normalize`')
+    if check_evolution_criteria(prog, rep) < 2:
+        raise AnalysisError('KRYLOV-default-doc: docstring default of normalize not found')
     rep.rule('KRYLOV-restart', 'GMRES: reset() prepares the per-cycle state like __init__; unit '
              'first vector')
     if check_gmres(prog, rep) < 6:
@@ -874,4 +878,60 @@ def check_gmres(prog, rep):
                           'the first Krylov vector must be the residual divided by the norm of '
                           'that residual, and e1 scaled by the same number (Arnoldi needs an '
                           'orthonormal basis; H y = |r| e1)', nf.lineno)
+    return n
+
+
+# ------------------------------------------------------------------ round-5: evolution criteria
+def check_evolution_criteria(prog, rep):
+    """KRYLOV-converged-normalised: LanczosEvolution._converged decides on the weight of the last
+    Krylov vector in the NORMALISED result (`_result_krylov` is kept normalised, the norm is stored
+    separately in `_result_norm`); the test therefore reads `_result_krylov` and `P_tol` only --
+    scaling it with `_result_norm` stops early for decaying results (imaginary time, no E_shift).
+    KRYLOV-default-doc: the default of `normalize` in LanczosEvolution.run is the expression its
+    docstring states ("Defaults to ``...``"), compared as syntax trees with numeric literals
+    normalised."""
+    m = prog.module(KRY)
+    n = 0
+    f = m.func('LanczosEvolution._converged')
+    reads = sorted({x.attr for x in ast.walk(f) if is_self_attr(x)})
+    n += 1
+    ok = set(reads) <= {'_result_krylov', 'P_tol'}
+    rep.instance('KRYLOV-converged-normalised', {'reads': reads, 'ok': ok})
+    if not ok:
+        rep.violation('KRYLOV-converged-normalised', m, 'LanczosEvolution._converged',
+                      'reads:' + ','.join(reads),
+                      'the convergence test reads %s; it is defined on the normalised Krylov '
+                      'result only (`_result_krylov`, `P_tol`): weighting with the norm of the '
+                      'result makes it pass too early when exp(delta*H) shrinks the vector' %
+                      reads, f.lineno)
+    g = m.func('LanczosEvolution.run')
+    doc = ast.get_docstring(g) or ''
+    mm = re.search(r'normalize : .*?Defaults to ``(.+?)``', doc, re.S)
+    code = None
+    for st in ast.walk(g):
+        if isinstance(st, ast.If) and unparse(st.test) == 'normalize is None':
+            for a in st.body:
+                if isinstance(a, ast.Assign) and unparse(a.targets[0]) == 'normalize':
+                    code = a.value
+    if mm and code is not None:
+        n += 1
+
+        def norm(e):
+            e = ast.parse(e, mode='eval').body if isinstance(e, str) else e
+            for x in ast.walk(e):
+                if isinstance(x, ast.Constant) and isinstance(x.value, (int, float)) and \
+                        not isinstance(x.value, bool):
+                    x.value = float(x.value)
+            return ast.dump(e)
+        try:
+            same = norm(mm.group(1)) == norm(code)
+        except SyntaxError:
+            same = True
+        rep.instance('KRYLOV-default-doc', {'documented': mm.group(1), 'code': unparse(code),
+                                            'agree': same})
+        if not same:
+            rep.violation('KRYLOV-default-doc', m, 'LanczosEvolution.run', 'default:normalize',
+                          'the docstring promises `normalize` defaults to `%s`, the code uses `%s`: '
+                          'for a genuinely complex exponent the result is (not) normalised against '
+                          'the documentation' % (mm.group(1), unparse(code)), code.lineno)
     return n
